@@ -55,11 +55,18 @@ func (f *MultipleValueProg1) Call(s *slip.Scope, args slip.List, depth int) (res
 		ff = slip.ListToFunc(s, list, d2)
 	}
 	result = s.Eval(ff, d2)
+	switch result.(type) {
+	case *slip.ReturnResult, *GoTo:
+		return // pass a return-from, return or go on to its target
+	}
 	for _, arg := range args[1:] {
 		if list, ok := arg.(slip.List); ok {
 			arg = slip.ListToFunc(s, list, d2)
 		}
-		_ = s.Eval(arg, d2)
+		switch tr := s.Eval(arg, d2).(type) {
+		case *slip.ReturnResult, *GoTo:
+			return tr
+		}
 	}
 	return
 }
